@@ -182,6 +182,8 @@ def coqc_file(path, timeout=900, extra_q=()):
     for d, n in extra_q:
         args += ["-Q", d, n]
     args.append(path)
+    # long string literals are deeply nested terms: lift the native stack limit for coqc
+    args = ["bash", "-c", "ulimit -s unlimited 2>/dev/null || ulimit -s 1000000; exec \"$@\"", "coqc-wrapper"] + args
     try:
         rc, out = run(args, timeout, cwd=os.path.dirname(path))
     except subprocess.TimeoutExpired:
@@ -305,7 +307,7 @@ def coq_text(s):
     return "[" + ";".join(str(ord(c)) for c in s) + "]%N"
 
 
-def run_coq_cases(prop_id, imports, items, per_shard=400, timeout=1500, prelude=""):
+def run_coq_cases(prop_id, imports, items, per_shard=150, timeout=1500, prelude=""):
     """items: list of (model_expr : Coq term of type text, expected : ascii str).
     Evaluates every model_expr with vm_compute inside Coq and compares with expected.
     returns (mismatch indices, {index: model observation}, total vm seconds)"""
